@@ -54,6 +54,54 @@ def g_map(fc, y, p1, p2):
     return j[0] / (j[0] + j[1])
 
 
+def flip_temperature(fc, rng):
+    """A permeate temperature just below the point where the permeate-composition map of this state stops contracting
+    (g'(y*) = -1, the flip that gives birth to the attracting 2-cycles): there the iteration still converges, but
+    arbitrarily slowly ('critical slowing down').  -> temperature or None when this state has no such point."""
+    import copy
+
+    p1, p2 = fc.p1.value, fc.p2.value
+    probe = copy.copy(fc)
+    probe.pp = None
+
+    def slope(tp):
+        probe.tp = tp
+        lo, hi = 1e-9, 1 - 1e-9
+        try:
+            flo = g_map(probe, lo, p1, p2) - lo
+            fhi = g_map(probe, hi, p1, p2) - hi
+            if not (flo > 0 > fhi):
+                return None
+            for _ in range(60):
+                mid = 0.5 * (lo + hi)
+                if g_map(probe, mid, p1, p2) - mid > 0:
+                    lo = mid
+                else:
+                    hi = mid
+            y, h = 0.5 * (lo + hi), 1e-6
+            if not (2 * h < y < 1 - 2 * h):
+                return None
+            return (g_map(probe, y + h, p1, p2) - g_map(probe, y - h, p1, p2)) / (2 * h)
+        except Exception:
+            return None
+
+    hi_t = fc.t_feed - 1e-3
+    lo_t = fc.t_feed - 60.0
+    s_hi, s_lo = slope(hi_t), slope(lo_t)
+    if s_hi is None or s_lo is None or not (s_hi < -1 < s_lo):
+        return None
+    for _ in range(50):
+        mid = 0.5 * (lo_t + hi_t)
+        sm = slope(mid)
+        if sm is None:
+            return None
+        if sm < -1:
+            hi_t = mid
+        else:
+            lo_t = mid
+    return lo_t - rng.choice([1e-2, 1e-3, 3e-4, 1e-4, 1e-5, 1e-6, 0.0])
+
+
 def lipschitz(fc, ystar, p1, p2, precision):
     """local contraction factor of the permeate-composition map around y* (sup over y*, y* +- precision)"""
     worst = 0.0
